@@ -261,12 +261,12 @@ func genCase(rng *rand.Rand) Case {
 			c.ExpiryAfter = 2e9 // keeps the truncated expiry strictly later
 		}
 	}
-	usedInt := map[int64]bool{}
+	usedInt, usedText := map[int64]bool{}, map[string]bool{}
 	for n := rng.IntN(7); n > 0; n-- {
 		a := AttrDesc{Critical: rng.IntN(2) == 0}
 		if c.MT == sims.COSE && rng.IntN(3) == 0 {
 			a.IsInt = true
-			a.KeyInt = []int64{-1, -7, -70000, 8, 10, 13, 14, 17, 100, 65536, -65537, 4294967296, math.MaxInt64, math.MinInt64}[rng.IntN(14)]
+			a.KeyInt = []int64{-1, -7, -70000, 8, 10, 13, 14, 17, 100, 65536, -65537, 4294967296, math.MaxInt64, math.MinInt64, 1000, -100}[rng.IntN(16)]
 			if usedInt[a.KeyInt] {
 				continue // a repeated key is not a valid request
 			}
@@ -275,6 +275,11 @@ func genCase(rng *rand.Rand) Case {
 			if a.KeyInt > -30000 && a.KeyInt < 30000 {
 				a.IntType = []string{"int64", "int", "int32", "int16"}[rng.IntN(4)]
 			}
+		} else if exact := []string{"kid", "typ", "jku", "jwk", "x5u", "x5t", "x5t#S256", "1000", "-1", "-100", "8", "-7", "100"}[rng.IntN(13)]; rng.IntN(4) == 0 && !usedText[exact] {
+			// names a JOSE library knows as registered header parameters, and text
+			// labels that spell a number an integer label may carry as well
+			usedText[exact] = true
+			a.KeyText = exact
 		} else {
 			a.KeyText = []string{"io.example.a", "k", "signedCritKey", "x-très", "a.b.c", "日本", "with space", "UPPER", "io.cncf.notary.custom"}[rng.IntN(9)] + fmt.Sprint(n)
 		}
@@ -282,7 +287,7 @@ func genCase(rng *rand.Rand) Case {
 		c.Attrs = append(c.Attrs, a)
 	}
 	if rng.IntN(2) == 0 {
-		c.Agent = []string{"notation/1.0", "agent with spaces", "ü/2", "a"}[rng.IntN(4)]
+		c.Agent = []string{"notation/1.0", "agent with spaces", "ü/2", "a", "agent\twith a tab", "agent read from a file\n", "no\u00a0break", "bell\a"}[rng.IntN(8)]
 	}
 	return c
 }
